@@ -112,6 +112,467 @@ def qexp_ref(q):
     return math.exp(s) * np.r_[math.cos(n), v / n * math.sin(n)]
 
 
+# ------------------------------------------------------------------------------------------------------------
+# B.1  T-const: thresholds, branch skeleton and call set of the functions modelled in Model/C12_ExpLog.v
+# ------------------------------------------------------------------------------------------------------------
+FILES = {
+    'spatialmath/quaternion.py': ['Quaternion.__init__', 'Quaternion.norm', 'Quaternion.log', 'Quaternion.exp',
+                                  'UnitQuaternion.__init__'],
+    'spatialmath/base/vectors.py': ['norm', 'unitvec'],
+    'spatialmath/base/quaternions.py': ['qnorm', 'unit'],
+}
+# if / else / return <callee> / raise structure; assigned locals are renamed to `_`, a threshold operand of an
+# ordering comparison (a number, or a number times _eps) to `K` -- the value of K goes to Consts_C12.v
+EXPECTED_SKELETON = {
+    'Quaternion.__init__': ['if v is None', 'if super().arghandler(s, check=False)', 'return', 'else', 'if base.isvector(s, 4)',
+                            'endif', 'endif', 'else', 'if base.isscalar(s) and base.isvector(v, 3)', 'else', 'raise ValueError',
+                            'endif', 'endif'],
+    'Quaternion.norm': ['if len(self) == 1', 'return base.qnorm', 'else', 'return np.array', 'endif'],
+    'Quaternion.log': ['return Quaternion'],
+    'Quaternion.exp': ['if abs(self.s) < K', 'return UnitQuaternion', 'else', 'return Quaternion', 'endif'],
+    'UnitQuaternion.__init__': ['if v is None', 'if super().arghandler(s, check=check)', 'else',
+                                'if isinstance(s, np.ndarray) and base.isrot(s, check=check)', 'else',
+                                'if isinstance(s, np.ndarray) and base.ishom(s, check=check)', 'else',
+                                'if isinstance(s, np.ndarray) and s.shape[1] == 4', 'if norm', 'else', 'endif', 'else',
+                                'if isinstance(s, SO3)', 'else', 'if isinstance(s[0], SO3)', 'else', 'raise ValueError', 'endif',
+                                'endif', 'endif', 'endif', 'endif', 'endif', 'else', 'if base.isscalar(s) and base.isvector(v, 3)',
+                                'if norm', 'endif', 'else', 'raise ValueError', 'endif', 'endif'],
+    'norm': ['For', 'if isinstance(_, sympy.Expr)', 'return sympy.sqrt', 'else', 'return math.sqrt', 'endif'],
+    'unitvec': ['if _ > K', 'return', 'else', 'return None', 'endif'],
+    'qnorm': ['return np.linalg.norm'],
+    'unit': ['if abs(_) < K', 'raise ValueError', 'endif', 'return'],
+}
+# multiset of callees of the small kernels (invariant under renamed locals / reordered terms)
+EXPECTED_CALLS = {
+    'Quaternion.log': ['Quaternion', 'base.unitvec', 'math.acos', 'math.log', 'self.norm'],
+    'Quaternion.exp': ['Quaternion', 'UnitQuaternion', 'abs', 'base.norm', 'math.cos', 'math.exp', 'math.sin'],
+    'norm': ['isinstance', 'math.sqrt', 'sympy.sqrt'],
+    'unitvec': ['getvector', 'norm'],
+    'qnorm': ['base.getvector', 'np.linalg.norm'],
+    'unit': ['ValueError', 'abs', 'base.getvector', 'np.linalg.norm'],
+}
+# threshold sites: function -> field of the qthr record
+SITES = {'Quaternion.exp': 't_exp', 'unitvec': 't_unitvec', 'unit': 't_unit'}
+NOMINAL = {'t_exp': 100 * EPS, 't_unitvec': 100 * EPS, 't_unit': 10 * EPS}
+
+
+class TConstError(Exception):
+    pass
+
+
+def _num(e):
+    return isinstance(e, ast.Constant) and isinstance(e.value, (int, float)) and not isinstance(e.value, bool)
+
+
+def _is_thr(e):
+    if _num(e):
+        return True
+    if isinstance(e, ast.BinOp) and isinstance(e.op, ast.Mult):
+        return any(isinstance(x, ast.Name) and x.id == '_eps' for x in (e.left, e.right))
+    return False
+
+
+def _skeleton(fn):
+    params = {a.arg for a in fn.args.args}
+    stored = {n.id for n in ast.walk(fn) if isinstance(n, ast.Name) and isinstance(n.ctx, ast.Store)}
+    local = stored - params
+
+    class Ren(ast.NodeTransformer):
+        def visit_Name(self, n):
+            return ast.copy_location(ast.Name(id='_' if n.id in local else n.id, ctx=n.ctx), n)
+
+        def visit_Compare(self, n):
+            if len(n.ops) == 1 and isinstance(n.ops[0], (ast.Lt, ast.LtE, ast.Gt, ast.GtE)):
+                if _is_thr(n.left):
+                    n.left = ast.Name(id='K', ctx=ast.Load())
+                if _is_thr(n.comparators[0]):
+                    n.comparators = [ast.Name(id='K', ctx=ast.Load())]
+            self.generic_visit(n)
+            return n
+    out = []
+
+    def tag(v):
+        if isinstance(v, ast.Call):
+            return ' ' + ast.unparse(v.func)
+        if isinstance(v, ast.Constant):
+            return ' ' + repr(v.value)
+        return ''
+
+    def walk(stmts):
+        for st in stmts:
+            if isinstance(st, ast.If):
+                out.append('if ' + ast.unparse(Ren().visit(ast.parse(ast.unparse(st.test), mode='eval').body)))
+                walk(st.body)
+                if st.orelse:
+                    out.append('else')
+                    walk(st.orelse)
+                out.append('endif')
+            elif isinstance(st, ast.Return):
+                out.append('return' + tag(st.value))
+            elif isinstance(st, ast.Raise):
+                out.append('raise ' + (ast.unparse(st.exc.func) if isinstance(st.exc, ast.Call) else ast.unparse(st.exc)))
+            elif isinstance(st, (ast.For, ast.While, ast.With, ast.Try)):
+                out.append(type(st).__name__)
+                walk(st.body)
+    walk(fn.body)
+    return out
+
+
+def _find(tree, path):
+    body, node = tree.body, None
+    for part in path.split('.'):
+        node = next((n for n in body if isinstance(n, (ast.FunctionDef, ast.ClassDef)) and n.name == part), None)
+        if node is None:
+            raise TConstError(f"modelled function {path} not found")
+        body = node.body
+    return node
+
+
+def _defaults(fn):
+    a, d = fn.args, {}
+    for arg, val in zip(a.args[len(a.args) - len(a.defaults):], a.defaults):
+        if isinstance(val, ast.Constant):
+            d[arg.arg] = val.value
+    return d
+
+
+def _coq_num(c):
+    """a Python int / float literal as an exact term over the ops record"""
+    if isinstance(c, bool) or not isinstance(c, (int, float)) or (isinstance(c, float) and not math.isfinite(c)):
+        raise TConstError(f"threshold literal {c!r} is not a finite number")
+    p, q = (c, 1) if isinstance(c, int) else c.as_integer_ratio()
+    z = lambda n: f"(of_Z O ({n})%Z)"
+    return z(p) if q == 1 else f"(div O {z(p)} {z(q)})"
+
+
+def _threshold(fn, name):
+    """the single ordering comparison of fn one side of which is a threshold: (coq term, float value, source text)"""
+    dflt = _defaults(fn)
+    found = []
+    for n in ast.walk(fn):
+        if isinstance(n, ast.Compare) and len(n.ops) == 1 and isinstance(n.ops[0], (ast.Lt, ast.LtE, ast.Gt, ast.GtE)):
+            for e in (n.left, n.comparators[0]):
+                if _num(e):
+                    found.append((_coq_num(e.value), float(e.value), ast.unparse(e)))
+                elif isinstance(e, ast.BinOp) and isinstance(e.op, ast.Mult):
+                    a, b = e.left, e.right
+                    if isinstance(a, ast.Name) and a.id == '_eps':
+                        a, b = b, a
+                    if isinstance(b, ast.Name) and b.id == '_eps':
+                        if _num(a):
+                            k = a.value
+                        elif isinstance(a, ast.Name) and a.id in dflt and isinstance(dflt[a.id], (int, float)) \
+                                and not isinstance(dflt[a.id], bool):
+                            k = dflt[a.id]
+                        else:
+                            raise TConstError(f"{name}: threshold factor `{ast.unparse(a)}` is neither a literal nor a defaulted parameter")
+                        found.append((f"(mul O {_coq_num(k)} (eps O))", float(k) * EPS, ast.unparse(e)))
+    if len(found) != 1:
+        raise TConstError(f"{name}: expected exactly one comparison with a threshold, found {len(found)}")
+    if not found[0][1] >= 0:
+        raise TConstError(f"{name}: threshold {found[0][2]} is negative")
+    return found[0]
+
+
+def tconst(ctx):
+    """returns {field: (coq term, float value, source text)}; raises TConstError when the hand model no longer corresponds"""
+    fns = {}
+    for f, names in FILES.items():
+        tree = ast.parse(open(os.path.join(REPO, f)).read())
+        if not any(isinstance(n, ast.Assign) and ast.unparse(n) == '_eps = np.finfo(np.float64).eps' for n in tree.body):
+            raise TConstError(f"{f}: _eps is no longer np.finfo(np.float64).eps")
+        for nm in names:
+            fns[nm] = _find(tree, nm)
+    for nm, fn in fns.items():
+        sk, ex = _skeleton(fn), EXPECTED_SKELETON[nm]
+        if sk != ex:
+            i = next((i for i, (a, b) in enumerate(zip(sk, ex)) if a != b), min(len(sk), len(ex)))
+            raise TConstError(f"branch skeleton of {nm} differs from the modelled one at position {i}: "
+                              f"source has {sk[i:i + 2]}, model expects {ex[i:i + 2]}")
+        if nm in EXPECTED_CALLS:
+            calls = sorted(ast.unparse(n.func) for n in ast.walk(fn) if isinstance(n, ast.Call))
+            if calls != EXPECTED_CALLS[nm]:
+                raise TConstError(f"{nm} calls {calls}, the model was written for {EXPECTED_CALLS[nm]}")
+    if _defaults(fns['UnitQuaternion.__init__']).get('norm') is not True:
+        raise TConstError("UnitQuaternion.__init__: default of `norm` is no longer True (the model normalises)")
+    # base.unit must be called with its default tolerance from the (s=, v=) constructor
+    for n in ast.walk(fns['UnitQuaternion.__init__']):
+        if isinstance(n, ast.Call) and ast.unparse(n.func) == 'base.unit' and (len(n.args) != 1 or n.keywords):
+            raise TConstError("UnitQuaternion.__init__ passes a tolerance to base.unit (the model uses the default)")
+    K = {field: _threshold(fns[nm], nm) for nm, field in SITES.items()}
+    ctx.stats['thresholds'] = {k: {'source': v[2], 'value': v[1]} for k, v in K.items()}
+    return K
+
+
+def consts_text(K):
+    return ("(* GENERATED on every run by props/C12.py from the AST of /repo's working tree -- do not edit.\n"
+            "   thresholds of Quaternion.exp (" + K['t_exp'][2] + "), vectors.unitvec (" + K['t_unitvec'][2] +
+            "), quaternions.unit (" + K['t_unit'][2] + ") *)\n"
+            "From Coq Require Import ZArith.\nFrom SM Require Import Base.Ops Model.C12_ExpLog.\n"
+            "Definition C12_thr {T} (O : ops T) : qthr T :=\n  {| " +
+            ";\n     ".join(f"{f} := {K[f][0]}" for f in ('t_exp', 't_unitvec', 't_unit')) + " |}.\n")
+
+
+# ------------------------------------------------------------------------------------------------------------
+# B.2  hand models instantiated with the regenerated thresholds (appended to Traces_C12.v) + directed samplers
+# ------------------------------------------------------------------------------------------------------------
+WRAPPERS = """
+(* ---- hand models of theories/Model/C12_ExpLog.v instantiated with the regenerated thresholds ---- *)
+From SM Require Import Base.Lin Model.C12_ExpLog.
+From SMgen Require Import Consts_C12.
+Definition m_vnorm3 {T} (O : ops T) (v : V3 T) : T := vnorm3 O v.
+Definition m_qnorm4 {T} (O : ops T) (q : V4 T) : T := qnorm4 O q.
+Definition m_unitvec {T} (O : ops T) (v : V3 T) := unitvec3 O (C12_thr O) v.
+Definition m_qunit {T} (O : ops T) (q : V4 T) := qres_opt (qunit O (C12_thr O) q).
+Definition m_qunit_code {T} (O : ops T) (q : V4 T) : T := qres_code O (qunit O (C12_thr O) q).
+Definition m_qexp {T} (O : ops T) (q : V4 T) := qres_opt (qexp_vec O (C12_thr O) q).
+Definition m_qexp_code {T} (O : ops T) (q : V4 T) : T := qres_code O (qexp O (C12_thr O) q).
+Definition m_qexp_unit {T} (O : ops T) (q : V4 T) : bool := qexp_is_unit O (C12_thr O) q.
+Definition m_qlog {T} (O : ops T) (q : V4 T) := qres_opt (qlog O (C12_thr O) q).
+Definition m_qlog_code {T} (O : ops T) (q : V4 T) : T := qres_code O (qlog O (C12_thr O) q).
+Definition m_qexp_log {T} (O : ops T) (q : V4 T) := qres_opt (qexp_log O (C12_thr O) q).
+Definition m_qexp_log_code {T} (O : ops T) (q : V4 T) : T := qres_code O (qexp_log O (C12_thr O) q).
+Definition m_qlog_exp {T} (O : ops T) (q : V4 T) := qres_opt (qlog_exp O (C12_thr O) q).
+Definition m_qlog_exp_code {T} (O : ops T) (q : V4 T) : T := qres_code O (qlog_exp O (C12_thr O) q).
+"""
+
+
+class Cycle:
+    """sampler that visits its input classes round-robin (every class is hit for any case count >= len)"""
+    def __init__(self, ctx, name, classes):
+        self.ctx, self.name, self.classes, self.i = ctx, name, classes, 0
+
+    def __call__(self, rng):
+        lab, f = self.classes[self.i % len(self.classes)]
+        self.i += 1
+        self.ctx.count(f'hit:{self.name}:{lab}')
+        return f(rng)
+
+
+def away(x, t):
+    """x is a factor 2 away from the threshold t"""
+    return not (t / 2 <= abs(x) <= 2 * t)
+
+
+class Dom:
+    """directed inputs for exp / log; th = {'t_exp','t_unitvec','t_unit'} -> float values taken from the source"""
+    def __init__(self, th):
+        self.te, self.tu, self.tn = th['t_exp'], th['t_unitvec'], th['t_unit']
+
+    # ---- scalar part of the argument of exp
+    def s_zero(self, rng):
+        return 0.0
+
+    def s_tiny(self, rng):
+        while True:
+            s = log_uniform(rng, 1e-18, 1e-1) * rng.choice([-1.0, 1.0])
+            if away(s, self.te):
+                return s
+
+    def s_band_edge(self, rng):       # just inside / just outside the branch of exp (a factor 2..4 from it)
+        return self.te * rng.choice([1 / rng.uniform(2, 4), rng.uniform(2, 4)]) * rng.choice([-1.0, 1.0])
+
+    def s_o1(self, rng):
+        return rng.uniform(-3, 3)
+
+    S_CLASSES = ['s_zero', 's_tiny', 's_tiny', 's_band_edge', 's_o1']
+
+    # ---- vector part
+    def v_small(self, rng):
+        return rand_unit(rng) * log_uniform(rng, 1e-12, 1e-2)
+
+    def v_mid(self, rng):
+        return rand_unit(rng) * rng.uniform(0.01, math.pi - 0.01)
+
+    def v_near_pi(self, rng):
+        return rand_unit(rng) * (math.pi - log_uniform(rng, 1e-9, 1e-2))
+
+    def v_axis(self, rng):
+        return np.eye(3)[rng.integers(3)] * rng.choice([-1.0, 1.0]) * log_uniform(rng, 1e-12, math.pi - 1e-6)
+
+    def v_big(self, rng):
+        return rand_unit(rng) * rng.uniform(math.pi + 0.01, 3 * math.pi)
+
+    V_IN = ['v_small', 'v_mid', 'v_near_pi', 'v_axis']
+
+    def exp_arg(self, sc, vc):
+        return lambda rng: [np.r_[getattr(self, sc)(rng), getattr(self, vc)(rng)]]
+
+    def exp_classes(self, with_big=True, with_zero=True):
+        cl = [(f'{sc}/{vc}', self.exp_arg(sc, vc)) for vc in self.V_IN + (['v_big'] if with_big else [])
+              for sc in self.S_CLASSES]
+        if with_zero:
+            cl.append(('real', lambda rng: [np.r_[rng.uniform(-2, 2), 0.0, 0.0, 0.0]]))
+        return cl
+
+    def log_exp_ok(self, q):
+        """the composition log(exp q) stays a factor 2 away from the unitvec threshold"""
+        n = float(np.linalg.norm(q[1:]))
+        return n > 0 and away(math.exp(q[0]) * abs(math.sin(n)), self.tu) and away(abs(math.sin(n)), self.tu)
+
+    def log_exp_classes(self):
+        def mk(f):
+            def g(rng):
+                while True:
+                    a = f(rng)
+                    if self.log_exp_ok(a[0]):
+                        return a
+            return g
+        return [(lab, mk(f)) for lab, f in self.exp_classes(with_zero=False)]
+
+    # ---- argument of log
+    def unit_dir(self, rng, lo=1e-9):
+        """unit 4-vector whose vector part is not negligible: generic, vector-dominated, or with a small vector part
+        (at least lo relative to the scalar part)"""
+        r = rng.random()
+        if r < 0.5:
+            u = rand_unit(rng, 4)
+        elif r < 0.7:
+            u = np.r_[rng.normal() * 1e-3, rand_unit(rng)]
+        else:
+            u = np.r_[rng.choice([-1.0, 1.0]), rand_unit(rng) * log_uniform(rng, lo, 1e-1)]
+        return u / np.linalg.norm(u)
+
+    def log_ok(self, p, lo=0.0):
+        """p is a factor 2 away from the unitvec threshold (vector part) and from the band of exp (|ln|p||);
+        lo: smallest |v|/|p| admitted when the scalar part is positive (below ~2e-8 acos(s/|p|) rounds to 0)"""
+        nv, N = float(np.linalg.norm(p[1:])), float(np.linalg.norm(p))
+        return nv > 2 * self.tu and nv > 0 and N > 0 and away(math.log(N), self.te) and (p[0] < 0 or nv >= lo * N)
+
+    def _retry(self, f, lo):
+        def g(rng):
+            while True:
+                p = f(rng, lo)
+                if self.log_ok(p, lo):
+                    return [p]
+        return g
+
+    def p_near_unit(self, rng, lo):
+        return self.unit_dir(rng, lo) * (1.0 + rng.choice([-1.0, 1.0]) * log_uniform(rng, 1e-18, 1e-2))
+
+    def p_band_edge(self, rng, lo):
+        d = self.te * rng.choice([1 / rng.uniform(2.2, 4), rng.uniform(2.2, 4)])
+        return self.unit_dir(rng, lo) * math.exp(rng.choice([-1.0, 1.0]) * d)
+
+    def p_generic(self, rng, lo):
+        return self.unit_dir(rng, lo) * log_uniform(rng, 1e-3, 1e3)
+
+    def p_small_vec(self, rng, lo):
+        """vector part between 2.5 t_unitvec and 1e-6 in absolute terms, scalar part O(1) (any sign)"""
+        return np.r_[rng.uniform(0.2, 3) * rng.choice([-1.0, 1.0]), rand_unit(rng) * log_uniform(rng, max(2.5 * self.tu, 1e-300), 1e-6)]
+
+    def p_small_vec_neg(self, rng, lo):
+        return np.r_[-rng.uniform(0.2, 3), rand_unit(rng) * log_uniform(rng, max(2.5 * self.tu, 1e-300), 1e-6)]
+
+    def p_acos_zero(self, rng):
+        """positive scalar part, |v| <= 1e-9 |s| (above the unitvec threshold): acos(s/|p|) = acos(1.0) = 0 exactly,
+        log returns a zero vector part and exp of that divides 0 by 0 (finding)"""
+        while True:
+            sc = rng.uniform(0.2, 3)
+            p = np.r_[sc, rand_unit(rng) * sc * log_uniform(rng, 1e-13, 1e-9)]
+            if np.linalg.norm(p[1:]) > 2.5 * self.tu and away(math.log(np.linalg.norm(p)), self.te):
+                return [p]
+
+    def p_below(self, rng):
+        """non-zero vector part at most half the unitvec threshold: log raises TypeError (finding)"""
+        return [np.r_[rng.uniform(0.2, 3) * rng.choice([-1.0, 1.0]), rand_unit(rng) * log_uniform(rng, 1e-3, 0.5) * self.tu]]
+
+    def p_real(self, rng):
+        return [np.r_[rng.uniform(0.2, 3) * rng.choice([-1.0, 1.0]), 0.0, 0.0, 0.0]]
+
+    def p_zero(self, rng):
+        return [np.zeros(4)]
+
+    def log_classes(self, composite=False, errors=True):
+        """composite: classes for exp(log p): |v|/|p| >= 1e-5 (or s < 0) so that the angle is not at the rounding
+        level of acos, plus the class on which it IS exactly 0"""
+        lo = 1e-5 if composite else 0.0
+        ud = 1e-5 if composite else 1e-9
+        cl = [('near-unit', self._retry(self.p_near_unit, ud)), ('band-edge', self._retry(self.p_band_edge, ud)),
+              ('generic', self._retry(self.p_generic, ud))]
+        if composite:
+            cl += [('small-vector-neg', self._retry(self.p_small_vec_neg, lo)), ('acos-zero', self.p_acos_zero)]
+        else:
+            cl += [('small-vector', self._retry(self.p_small_vec, lo))]
+        if errors and self.tu > 0:
+            cl += [('below-unitvec', self.p_below), ('real', self.p_real), ('zero', self.p_zero)]
+        return cl
+
+
+def _vec_or_none(f):
+    """library result as a flat float vector; None when it has NaN components (the model's NanRes)"""
+    def g(*a):
+        with np.errstate(all='ignore'):
+            r = np.asarray(f(*a), float).flatten()
+        return None if np.any(np.isnan(r)) else r
+    return g
+
+
+def err_code(f):
+    """0 = value, 1 = TypeError, 2 = ValueError, 3 = NaN components (no exception): the codes of qres_code"""
+    def g(*a):
+        try:
+            with np.errstate(all='ignore'):
+                r = np.asarray(f(*a), float)
+            return 3.0 if np.any(np.isnan(r)) else 0.0
+        except TypeError:
+            return 1.0
+        except ValueError:
+            return 2.0
+    return g
+
+
+def add_models(ctx, g, th):
+    D = Dom(th)
+    M = 'Model.C12_ExpLog'
+    C = lambda nm, classes: Cycle(ctx, nm, classes)
+    Q = lambda q: Quaternion(q)
+    v3 = [('tiny', lambda rng: [rand_unit(rng) * log_uniform(rng, 1e-18, 0.5 * D.tu) if D.tu > 0 else np.zeros(3)]),
+          ('small', lambda rng: [rand_unit(rng) * log_uniform(rng, 2 * D.tu + 1e-300, 1e-3)]),
+          ('generic', lambda rng: [rng.normal(size=3) * log_uniform(rng, 1e-3, 1e3)]),
+          ('zero', lambda rng: [np.zeros(3)])]
+    q4 = [('generic', lambda rng: [rng.normal(size=4) * log_uniform(rng, 1e-6, 1e6)]),
+          ('tiny', lambda rng: [rand_unit(rng, 4) * log_uniform(rng, 1e-18, 0.5 * D.tn) if D.tn > 0 else np.zeros(4)]),
+          ('small', lambda rng: [rand_unit(rng, 4) * log_uniform(rng, 2 * D.tn + 1e-300, 1e-6)]),
+          ('zero', lambda rng: [np.zeros(4)])]
+    g.model('m_vnorm3', [('v', 'V3')], 'S', coq='m_vnorm3', module=M, num_fn=lambda v: base.norm(v), sampler=C('vnorm3', v3))
+    g.model('m_qnorm4', [('q', 'V4')], 'S', coq='m_qnorm4', module=M, num_fn=lambda q: Q(q).norm(), sampler=C('qnorm4', q4))
+    g.model('m_unitvec', [('v', 'V3')], 'O:V3', coq='m_unitvec', module=M, num_fn=lambda v: base.unitvec(v),
+            sampler=C('unitvec', v3))
+    # the normalising constructor UnitQuaternion(s=, v=) (= base.unit with the default tolerance)
+    g.model('m_qunit', [('q', 'V4')], 'O:V4', coq='m_qunit', module=M,
+            num_fn=lambda q: UnitQuaternion(s=float(q[0]), v=q[1:]).vec, sampler=C('qunit', q4))
+    g.model('m_qunit_code', [('q', 'V4')], 'S', coq='m_qunit_code', module=M,
+            num_fn=err_code(lambda q: UnitQuaternion(s=float(q[0]), v=q[1:]).vec), sampler=C('qunit_code', q4))
+    ex = D.exp_classes()
+    g.model('m_qexp', [('q', 'V4')], 'O:V4', coq='m_qexp', module=M, num_fn=_vec_or_none(lambda q: Q(q).exp().vec),
+            sampler=C('qexp', ex))
+    g.model('m_qexp_code', [('q', 'V4')], 'S', coq='m_qexp_code', module=M, num_fn=err_code(lambda q: Q(q).exp().vec),
+            sampler=C('qexp_code', ex))
+    g.model('m_qexp_unit', [('q', 'V4')], 'B', coq='m_qexp_unit', module=M,
+            num_fn=lambda q: float(isinstance(Q(q).exp(), UnitQuaternion) and not np.any(np.isnan(Q(q).exp().vec))),
+            sampler=C('qexp_unit', ex))
+    # log: acos(s/|q|) is ill-conditioned at s/|q| -> +-1: one ulp of difference in |q| (np.linalg.norm sums in BLAS
+    # order, the model left to right) moves the angle by up to sqrt(2 ulp) = 2.1e-8
+    lt = 1e-7
+    lg = D.log_classes()
+    g.model('m_qlog', [('q', 'V4')], 'O:V4', coq='m_qlog', module=M, num_fn=lambda q: Q(q).log().vec, sampler=C('qlog', lg), tol=lt)
+    g.model('m_qlog_code', [('q', 'V4')], 'S', coq='m_qlog_code', module=M, num_fn=err_code(lambda q: Q(q).log().vec),
+            sampler=C('qlog_code', lg))
+    lc = D.log_classes(composite=True)
+    g.model('m_qexp_log', [('q', 'V4')], 'O:V4', coq='m_qexp_log', module=M, num_fn=_vec_or_none(lambda q: Q(q).log().exp().vec),
+            sampler=C('qexp_log', lc), tol=lt)
+    g.model('m_qexp_log_code', [('q', 'V4')], 'S', coq='m_qexp_log_code', module=M,
+            num_fn=err_code(lambda q: Q(q).log().exp().vec), sampler=C('qexp_log_code', lc))
+    le = D.log_exp_classes()
+    g.model('m_qlog_exp', [('q', 'V4')], 'O:V4', coq='m_qlog_exp', module=M, num_fn=_vec_or_none(lambda q: Q(q).exp().log().vec),
+            sampler=C('qlog_exp', le), tol=lt)
+    g.model('m_qlog_exp_code', [('q', 'V4')], 'S', coq='m_qlog_exp_code', module=M,
+            num_fn=err_code(lambda q: Q(q).exp().log().vec), sampler=C('qlog_exp_code', le))
+    return D
+
+
+
 def oracle(ctx):
     """measure the identities on L-impl over magnitudes 1e-6..1e6 (search for a failing input)"""
     rng = ctx.rng
@@ -204,19 +665,142 @@ def oracle(ctx):
     ctx.sample({'kind': 'oracle', 'identity': 'assoc', 'p': p.tolist(), 'q': q.tolist(), 'r': r.tolist()})
 
 
+def qlog_ref(p):
+    """independent closed form of the principal logarithm (atan2 form: well conditioned at small angles)"""
+    s, v = p[0], p[1:]
+    nv, N = math.sqrt(float(v @ v)), math.sqrt(float(p @ p))
+    return np.r_[math.log(N), v / nv * math.atan2(nv, s)]
+
+
+def oracle_explog(ctx, th):
+    """exp / log on the DIRECTED domain (the property's tolerance: 1e-6 relative):
+       exp(q) against the closed form, log(exp q) = q for |v| in (0, pi), exp(log(exp q)) = exp q beyond pi,
+       log(p) against the closed form, exp(log p) = p  --  q: scalar part 0 / 1e-18..1e-1 / band edges / O(1),
+       vector norm 1e-12..pi..3pi;  p: |p| = 1 +- 1e-18..1e-2, band edges, 1e-3..1e3, small vector parts."""
+    rng, D, tol = ctx.rng, Dom(th), 1e-6
+    hx = lambda a: [float(x).hex() for x in np.asarray(a, float).flatten()]
+
+    def chk(key, lhs, rhs, scale, arg):
+        lhs, rhs = np.asarray(lhs, float), np.asarray(rhs, float)
+        ctx.case((key, tuple(np.asarray(arg, float))))
+        ctx.count('oracle:' + key)
+        err = float(np.max(np.abs(lhs - rhs))) if lhs.shape == rhs.shape and np.all(np.isfinite(lhs)) else float('inf')
+        ctx.stats['worst:' + key] = max(ctx.stats.get('worst:' + key, 0.0), err / scale)
+        if not err <= tol * scale:
+            nan = bool(np.any(np.isnan(lhs)))
+            ctx.fail('oracle:' + key + (':nan' if nan else ''),
+                     f"{key} fails on the implementation for q={np.asarray(arg).tolist()}: got {lhs.tolist()}, expected {rhs.tolist()} "
+                     f"(error {err:g}, scale {scale:g}, tolerance {tol:g} relative)",
+                     {'law': key, 'q': np.asarray(arg).tolist(), 'q_hex': hx(arg), 'got': lhs.tolist(), 'expected': rhs.tolist(),
+                      'replay': f"from spatialmath import Quaternion; q = Quaternion([float.fromhex(h) for h in {hx(arg)}])"})
+
+    def guarded(key, arg, f):
+        try:
+            with np.errstate(all='ignore'):
+                return f()
+        except Exception as ex:
+            ctx.case((key, tuple(np.asarray(arg, float))))
+            ctx.fail(f'oracle:{key}:raises:{type(ex).__name__}', f"{key}: raises {type(ex).__name__}: {ex} for q={np.asarray(arg).tolist()}",
+                     {'law': key, 'q': np.asarray(arg).tolist(), 'q_hex': hx(arg),
+                      'replay': f"from spatialmath import Quaternion; q = Quaternion([float.fromhex(h) for h in {hx(arg)}])"})
+            return None
+
+    N = ctx.n(150, 4000)
+    exp_cl = D.log_exp_classes()
+    for rnd in range(N):
+        for lab, f in exp_cl:
+            q = f(rng)[0]
+            ctx.count('hit:oracle-exp:' + lab)
+            n = float(np.linalg.norm(q[1:]))
+            ref = qexp_ref(q)
+            E = guarded('exp', q, lambda: Quaternion(q).exp())
+            if E is None:
+                continue
+            chk('exp-closed-form', E.vec, ref, float(np.linalg.norm(ref)), q)
+            if n < math.pi - 1e-10:
+                L = guarded('log-exp', q, lambda: E.log())
+                if L is not None:
+                    chk('log-exp-directed', L.vec, q, max(1.0, float(np.linalg.norm(q))), q)
+            else:
+                L = guarded('log-exp', q, lambda: E.log().exp())
+                if L is not None:
+                    chk('exp-log-exp', L.vec, ref, float(np.linalg.norm(ref)), q)
+        for lab, f in D.log_classes(composite=False, errors=False):
+            p = f(rng)[0]
+            ctx.count('hit:oracle-log:' + lab)
+            L = guarded('log', p, lambda: Quaternion(p).log())
+            if L is None:
+                continue
+            ref = qlog_ref(p)
+            chk('log-closed-form', L.vec, ref, max(1.0, float(np.linalg.norm(ref))), p)
+            # below |v|/|p| ~ 2e-8 (positive scalar part) the angle acos(s/|p|) is at the rounding level: separate class
+            if p[0] < 0 or np.linalg.norm(p[1:]) >= 1e-7 * np.linalg.norm(p):
+                R = guarded('exp-log', p, lambda: L.exp())
+                if R is not None:
+                    chk('exp-log-directed', R.vec, p, max(1.0, float(np.linalg.norm(p))), p)
+        # ---- vector parts that are non-zero but negligible: the property still demands the round trip
+        if D.tu > 0:
+            p = D.p_below(rng)[0]
+            ctx.count('hit:oracle-log:below-unitvec')
+            L = guarded('log:vector-part-below-unitvec-threshold', p, lambda: Quaternion(p).log())
+            if L is not None:
+                R = guarded('exp-log:small-vector-part', p, lambda: L.exp())
+                if R is not None:
+                    chk('exp-log:small-vector-part', R.vec, p, max(1.0, float(np.linalg.norm(p))), p)
+            # log(exp q) with e^s sin|v| below the threshold
+            sc = rng.uniform(-3, 3)
+            q = np.r_[sc, rand_unit(rng) * log_uniform(rng, 1e-3, 0.4) * D.tu * math.exp(-sc)]
+            ctx.count('hit:oracle-exp:below-unitvec')
+            L = guarded('log:vector-part-below-unitvec-threshold', q, lambda: Quaternion(q).exp().log())
+            if L is not None:
+                chk('log-exp:small-vector-part', L.vec, q, max(1.0, float(np.linalg.norm(q))), q)
+        p = D.p_acos_zero(rng)[0]
+        ctx.count('hit:oracle-log:acos-zero')
+        R = guarded('exp-log:small-vector-part', p, lambda: Quaternion(p).log().exp())
+        if R is not None:
+            chk('exp-log:small-vector-part', R.vec, p, max(1.0, float(np.linalg.norm(p))), p)
+    ctx.sample({'kind': 'oracle', 'identity': 'log-exp-directed', 'q': q.tolist()})
+
+
+
 def run(ctx):
-    ctx.rule = ("obligations: theorems of theories/Props/C12.v over the traces regenerated from /repo; "
-                "evaluations: Sym==Num cases (model vs implementation) + oracle evaluations of each identity on the "
-                "implementation at magnitudes 1e-6..1e6; a case is non-trivial/distinct by its (identity, input) signature")
+    ctx.rule = ("obligations: theorems of theories/Props/C12.v over the traces regenerated from /repo and of "
+                "theories/Props/C12_explog.v over the hand model of exp/log instantiated with the thresholds regenerated "
+                "from /repo's AST; evaluations: Sym==Num / T-num cases (model vs implementation) + oracle evaluations of "
+                "each identity on the implementation at magnitudes 1e-6..1e6 and of exp/log on the directed domain; "
+                "a case is non-trivial/distinct by its (identity, input) signature")
+    ctx.trusted_extra = ["T-const AST pass of props/C12.py (thresholds, branch skeleton and call set of Quaternion.exp/log, "
+                         "vectors.norm/unitvec, quaternions.qnorm/unit, the (s=, v=) constructors)",
+                         "math.atan2-based closed form of the quaternion logarithm and e^s(cos|v|, v/|v| sin|v|) as the oracle's references"]
+    with ctx.timed('regenerate'):
+        try:
+            K = tconst(ctx)
+        except TConstError as ex:
+            ctx.fail('tconst:model-correspondence-broken',
+                     f"the hand model of Quaternion.exp/log no longer corresponds to the source: {ex}", {'detail': str(ex)}, no_input=True)
+            K = None
+    th = {f: K[f][1] for f in K} if K else dict(NOMINAL)
+    consts_ok = False
+    if K is not None:
+        rc, out, err, dt = ctx.coqc(ctx.write_gen('Consts_C12.v', consts_text(K)))
+        consts_ok = rc == 0
+        if not consts_ok:
+            ctx.fail('gen:compile:consts', 'generated constants do not compile: ' + err[-800:], no_input=True)
     with ctx.timed('regenerate'):
         g = build(ctx)
-        ctx.write_gen(MOD + '.v', g.coq_text())
-    rc, out, err, dt = ctx.coqc(ctx.write_gen(MOD + '.v', g.coq_text()))
+        D = add_models(ctx, g, th) if consts_ok else None
+        text = g.coq_text() + (WRAPPERS if consts_ok else '')
+    rc, out, err, dt = ctx.coqc(ctx.write_gen(MOD + '.v', text))
     if rc != 0:
         ctx.fail('gen:compile', 'generated traces do not compile: ' + err[-800:], no_input=True)
-        return
-    ctx.prove('theories/Props/C12.v')
-    with ctx.timed('correspond'):
-        sym_num(ctx, g, MOD, ctx.n(25, 400))
+    else:
+        ctx.prove('theories/Props/C12.v')
+        if consts_ok:
+            ctx.prove('theories/Props/C12_explog.v')
+        with ctx.timed('correspond'):
+            sym_num(ctx, g, MOD, ctx.n(25, 400))
+    # the search for a failing input always runs (also when the model could not be re-established)
     with ctx.timed('oracle'):
         oracle(ctx)
+    with ctx.timed('oracle-explog'):
+        oracle_explog(ctx, th)
